@@ -89,58 +89,48 @@ static int
 load_rank(struct proc *proc, struct stream *s)
 {
 	JSON_Object *meta = stream_metadata(s);
+
+	/* The rank and the number of ranks are optional in a stream: they may
+	 * come from any thread of the process. They are merged independently
+	 * and checked together in proc_init_end(). */
 	JSON_Value *rank_val = json_object_dotget_value(meta, "ovni.rank");
+	if (rank_val != NULL) {
+		int rank = (int) json_number(rank_val);
 
-	/* Optional */
-	if (rank_val == NULL) {
-		dbg("process %s has no rank", proc->id);
-		return 0;
+		if (rank < 0) {
+			err("rank %d must be >=0, stream: %s", rank, s->relpath);
+			return -1;
+		}
+
+		if (proc->rank >= 0 && proc->rank != rank) {
+			err("mismatch previous rank %d with stream: %s",
+					proc->rank, s->relpath);
+			return -1;
+		}
+
+		proc->rank = rank;
 	}
 
-	int rank = (int) json_number(rank_val);
-
-	if (rank < 0) {
-		err("rank %d must be >=0, stream: %s", rank, s->relpath);
-		return -1;
-	}
-
-	if (proc->rank >= 0 && proc->rank != rank) {
-		err("mismatch previous rank %d with stream: %s",
-				proc->rank, s->relpath);
-		return -1;
-	}
-
-	/* Same with nranks, but it is not optional now */
 	JSON_Value *nranks_val = json_object_dotget_value(meta, "ovni.nranks");
-	if (nranks_val == NULL) {
-		err("missing ovni.nranks attribute: %s", s->relpath);
-		return -1;
-	}
+	if (nranks_val != NULL) {
+		int nranks = (int) json_number(nranks_val);
 
-	int nranks = (int) json_number(nranks_val);
+		if (nranks <= 0) {
+			err("nranks %d must be >0, stream: %s", nranks, s->relpath);
+			return -1;
+		}
 
-	if (nranks <= 0) {
-		err("nranks %d must be >0, stream: %s", nranks, s->relpath);
-		return -1;
-	}
+		if (proc->nranks > 0 && proc->nranks != nranks) {
+			err("mismatch previous nranks %d with stream: %s",
+					proc->nranks, s->relpath);
+			return -1;
+		}
 
-	if (proc->nranks > 0 && proc->nranks != nranks) {
-		err("mismatch previous nranks %d with stream: %s",
-				proc->nranks, s->relpath);
-		return -1;
-	}
-
-	/* Ensure rank fits in nranks */
-	if (rank >= nranks) {
-		err("rank %d must be lower than nranks %d: %s",
-				rank, nranks, s->relpath);
-		return -1;
+		proc->nranks = nranks;
 	}
 
 	dbg("process %s rank=%d nranks=%d",
-			proc->id, rank, nranks);
-	proc->rank = rank;
-	proc->nranks = nranks;
+			proc->id, proc->rank, proc->nranks);
 
 	return 0;
 }
@@ -224,6 +214,20 @@ proc_init_end(struct proc *proc)
 	if (proc->appid <= 0) {
 		err("appid not set");
 		return -1;
+	}
+
+	if (proc->rank >= 0) {
+		if (proc->nranks <= 0) {
+			err("missing ovni.nranks attribute in process %s", proc->id);
+			return -1;
+		}
+
+		/* Ensure rank fits in nranks */
+		if (proc->rank >= proc->nranks) {
+			err("rank %d must be lower than nranks %d in process %s",
+					proc->rank, proc->nranks, proc->id);
+			return -1;
+		}
 	}
 
 	proc->is_init = 1;
